@@ -111,8 +111,8 @@ def run_impl(fns, kind, names, rows, ops, tmpdir):
 # ---- by-name reference ------------------------------------------------------------------------------------
 def reference(names, rows, ops, resolved):
     """list of expected item lists, one per prefix of ops, or None from the first prefix on that the by-name
-    reading rejects (selection of a name that is not selected, a clause that is not `s.col OP s.col|literal`
-    on a table, negative slice bounds)"""
+    reading rejects (selection of a name that is not selected, a clause that is not `s.col OP s.col|literal`,
+    negative slice bounds); a clause is accepted on every layout (also after a child selection)"""
     out = []
     layout, conds, slices = ("table", list(names)), [], []
 
@@ -145,7 +145,7 @@ def reference(names, rows, ops, resolved):
                 return out
             slices.append(k[1:])
         else:
-            if layout[0] != "table" or rc is None:
+            if rc is None:
                 return out
             conds.append(rc)
         out.append(evaluate())
@@ -194,6 +194,8 @@ def check_program(ctx, fns, kind, names, rows, ops, resolved, cases, tmpdir, whe
               sample=dict(case, impl=text[:200]))
     if "l" in kinds and "s" in kinds[kinds.index("l"):]:
         ctx.tags["has:list-then-child"] += 1
+    if valid and "s" in kinds and "c" in kinds[kinds.index("s"):]:
+        ctx.tags["has:child-then-clause"] += 1
     return valid
 
 
@@ -205,8 +207,8 @@ def gen_program(rng, names, kinds, maxlen=6):
     for _ in range(n):
         r = rng.random()
         wild = rng.random() < 0.12
-        if layout[0] == "column" and not wild:
-            r = 0.7 + r * 0.3
+        if layout[0] == "column" and not wild and r >= 0.25:
+            r = 0.7 + (r - 0.25) / 0.75 * 0.3      # only clauses and slices apply to a column
         if r < 0.25:
             id1, o, id2, rc = seqtab.gen_clause(rng, SID, names, kinds, junk=0.08)
             ops.append(("cond", id1, o, id2))
@@ -268,6 +270,14 @@ def nested_programs():
     yield [("cond", "s.n.x", ">", "10")], [(r[0], [ir for ir in r[1] if ir[0] > 10], r[2]) for r in R]
     yield [("cond", "s.n.x", ">", "10"), ("str", "n"), ("str", "y")], [[ir[1] for ir in r[1] if ir[0] > 10] for r in R]
     yield [("list", ["n", "i"]), ("cond", "s.n.y", "!=", '"a"'), ("str", "n")], [[ir for ir in r[1] if ir[1] != "a"] for r in R]
+    # clauses after a child selection (fixed f0144e1: resolved against the source rows)
+    yield [("str", "n"), ("cond", "s.n.x", ">", "10")], [[ir for ir in r[1] if ir[0] > 10] for r in R]
+    yield [("str", "n"), ("list", ["y"]), ("cond", "s.n.x", ">", "10")], [[(ir[1],) for ir in r[1] if ir[0] > 10] for r in R]
+    yield [("str", "n"), ("str", "y"), ("cond", "s.n.x", ">", "10")], [[ir[1] for ir in r[1] if ir[0] > 10] for r in R]
+    yield [("str", "n"), ("cond", "s.i", ">", "1")], [r[1] for r in R if r[0] > 1]
+    yield [("str", "t"), ("cond", "s.i", "<", "3"), ("cond", "s.n.x", ">", "10")], [r[2] for r in R if r[0] < 3]
+    yield [("list", ["t", "i"]), ("cond", "s.n.y", "!=", '"a"')], [(r[2], r[0]) for r in R]
+    yield [("list", ["n", "n"]), ("cond", "s.n.y", "!=", '"a"')], [([ir for ir in r[1] if ir[1] != "a"],) * 2 for r in R]
 
 
 def check_nested(ctx, fns):
@@ -363,16 +373,15 @@ def check_nested_program(ctx, fns, hdr, rows, ops, resolved, cases, where):
     case = {"nested": "program", "hdr": [[n, k if isinstance(k, str) else [list(x) for x in k]] for n, k in hdr],
             "rows": [[v if not isinstance(v, list) else [list(ir) for ir in v] for v in r] for r in rows],
             "ops": [list(k) for k in ops], "resolved": [list(r) if r else None for r in resolved],
-            "finding_class": inner_cond is not None}
+            "clause_after_child": inner_cond is not None}
     cases.append((line, text, case))
     size = len(ops) * 100 + len(rows) * 10 + len(hdr)
     for n, (stream, first, pipe) in enumerate(seen):
-        cls = seqnest.FINDING if inner_cond is not None and n > inner_cond else None
         if n < len(exp):
             want = "[" + " ".join(seqnest.item_text(x) for x in exp[n]) + "]"
             if first != want:
                 ctx.oracle_fail("nested table: stream after %d step(s) does not list the reference rows" % n,
-                                dict(case, step=n), first, want, cls=cls, size=size + n)
+                                dict(case, step=n), first, want, size=size + n)
         for again in (1, 2):
             t2 = nested_listing(fns, stream)
             if t2 != first or pipe_text(stream) != pipe:
@@ -381,40 +390,24 @@ def check_nested_program(ctx, fns, hdr, rows, ops, resolved, cases, where):
                 break
     valid = len(exp) == len(ops) + 1
     if valid and err is not None:
-        ctx.oracle_fail("nested table: a step of a valid program raised " + err, case, text, "no exception",
-                        cls=seqnest.FINDING if inner_cond is not None else None, size=size)
+        ctx.oracle_fail("nested table: a step of a valid program raised " + err, case, text, "no exception", size=size)
     ctx.count(("nested", seqnest.hdr_sexp(hdr), seqnest.rows_sexp(rows), tuple(map(repr, ops))), len(ops) >= 2 and valid,
               tag="%s:nested:len%d:%s%s" % (where, len(ops), "valid" if valid else "rejected",
-                                          ":inner-cond" if inner_cond is not None else ""),
+                                          ":clause-after-child" if inner_cond is not None else ""),
               sample=dict(case, impl=text[:200]))
-
-
-W_HDR = [("i", "i"), ("n", [("x", "i"), ("y", "t")]), ("t", "t")]
-W_ROWS = [(1, [(10, "a"), (11, "b")], "p"), (2, [], "q"), (3, [(30, "c")], "r")]
-W_OPS = [("str", "n"), ("cond", "s.n.x", ">", "10")]
-W_RES = [None, ("inner", "n", "x", ">", ("const", 10))]
-
-
-def witness_inner_cond(fns):
-    """D["n"][CE("s.n.x>10")] must list [[(11,b)], [], [(30,c)]] (what D[CE("s.n.x>10")]["n"] lists)"""
-    text, seen, err = run_nested(fns, W_HDR, W_ROWS, W_OPS)
-    exp, _ = seqnest.reference(W_HDR, W_ROWS, W_OPS, W_RES)
-    want = "[" + " ".join(seqnest.item_text(x) for x in exp[-1]) + "]"
-    return err is not None or seen[-1][1] != want
 
 
 def explore_nested(ctx, fns, tier, search=False):
     cases = []
     rng = ctx.rng("nested-programs")
-    n = 700 if tier == "quick" else 15000
+    n = 1500 if tier == "quick" else 20000
     if search:
         n = 10000
     for _ in range(n):
         hdr, rows = seqnest.gen_table(rng)
         ops, res = seqnest.gen_program(rng, SID, hdr)
         check_nested_program(ctx, fns, hdr, rows, ops, res, cases, "random")
-    ctx.correspond("IterData programs on tables with one nested level (random, <= 6 steps)", cases,
-                   known_class=lambda m: seqnest.FINDING if m.get("finding_class") else None)
+    ctx.correspond("IterData programs on tables with one nested level (random, <= 6 steps)", cases)
 
 
 def explore(ctx, fns, tier, search=False):
@@ -435,7 +428,7 @@ def explore(ctx, fns, tier, search=False):
         # (b) random programs <= 6 steps on random tables
         cases = []
         rng = ctx.rng("programs")
-        n = 1200 if tier == "quick" else 25000
+        n = 2000 if tier == "quick" else 25000
         if search:
             n = 20000
         for _ in range(n):
@@ -458,19 +451,20 @@ def explore(ctx, fns, tier, search=False):
 def run(ctx):
     ctx.rule = ("every chain of length <= 3 over a 12-key alphabet (3 clauses, 3 column lists, 3 child selections, int, "
                 "2 slices) on a 4x3 table for IterData and CSVData (exhaustive), plus seeded random programs of 0..6 "
-                "steps on tables of 0..8 rows x 1..5 typed columns, ~12% of steps deliberately ill-formed; every "
+                "steps on tables of 0..8 rows x 1..5 typed columns, ~12% of steps deliberately ill-formed, clauses also "
+                "after child selections; seeded random programs on tables with one nested sequence level (clauses on outer "
+                "and on nested columns in every position, also after the child selection into the nested sequence); every "
                 "intermediate stream is listed when created, and twice again after all later steps; a case is "
                 "non-trivial when the program has >= 2 steps and is accepted by the by-name reference; distinct by "
                 "(constructor, table, program)")
     ctx.assumptions = ["Python list/itertools.islice/csv.reader semantics; cell comparison and ast.literal_eval are "
                        "parameters shared by model and reference (driver instances compared on every generated literal)",
-                       "C17 theorems cover flat tables and one nested sequence level (a filter after a child selection into the nested sequence is an open finding); Python object aliasing (copied lists, "
+                       "C17 theorems cover flat tables and one nested sequence level; Python object aliasing (copied lists, "
                        "copied template) are exercised by the harness only (see design_notes/C17.md)"]
     ctx.proof_phase()
     fns = load()
     explore(ctx, fns, ctx.tier)
-    return ctx.finish(search=lambda c: explore(c, fns, "thorough", search=True),
-                      witnesses={seqnest.FINDING: lambda: witness_inner_cond(fns)})
+    return ctx.finish(search=lambda c: explore(c, fns, "thorough", search=True))
 
 
 def replay(payload):
